@@ -179,9 +179,21 @@ static void scenario(report& r, int mode, bool preexisting, bool leftover = fals
             std::exit(2);
         }
     }
-    if (log.empty()) { std::fprintf(stderr, "HARNESS: no file system operation was logged\n"); std::exit(2); }
+    if (log.empty())
+    {
+        // nothing reached the file system although a writing mode was requested: there is no checkpoint to resume from
+        r.eval();
+        r.violate("writing-mode-writes-nothing", base, base + ": the run finished without a single file system call on the checkpoint path");
+        return;
+    }
     for (auto const& op : log) if (op.kind == vf::fs_open && op.path != g_chk) g_side_files.insert(op.path);
     r.count("logged_operations", log.size());
+    {
+        auto const at_end = vf::fs_replay(initial, log, log.size(), 0);
+        auto const f = at_end.find(g_chk);
+        if (f == at_end.end() || (f->second != final_text && fail_rename < 0))
+            r.violate("file-after-the-run-is-not-the-final-checkpoint", base, base + ": after the uninterrupted run the checkpoint file " + (f == at_end.end() ? "does not exist" : "differs from the returned checkpoint"));
+    }
 
     // iteration being written at log position i
     auto iteration_of = [&](sz i) { sz it = 0; while (it < marks.size() && i >= marks[it]) ++it; return it; };   // 0-based; == marks.size() after the end
